@@ -15,10 +15,13 @@ Ops:     ["construct", i, [lazy fields]]   Workflow.construct(task_i, lazy=[...]
          ["run", i, root]                  task_i(worker="debug", cache_root=root r)     -> outputs       root: "s" shared, "f" fresh
          ["set", i, field, value]          task_i.field = value                          -> None
          ["clear"]                         Workflow.clear_cache()                        -> None
+         ["mut", i, v]                     task_i.x.append(v)  (IN-PLACE change of a list input; only in the hand-written
+                                           mutation histories of corpus/wfcache/mutation.jsonl, never generated)  -> None
 """
 
 from __future__ import annotations
 
+import copy
 import importlib.util
 import itertools
 import json
@@ -171,6 +174,9 @@ def do_op(op, tasks, roots, scratch):
         if op[0] == "clear":
             Workflow.clear_cache()
             return None
+        if op[0] == "mut":
+            tasks[op[1]].x.append(op[2])
+            return None
         raise ValueError(f"bad op {op}")
     except Exception as e:  # noqa: BLE001  (exceptions are observables)
         return {"error": core.exc_tag(e)}
@@ -197,8 +203,11 @@ def run_history(case: dict, scratch: Path, only_last_with_current_values: bool =
             for op in ops[:-1]:
                 if op[0] == "set":
                     specs[op[1]][op[2]] = op[3]
+                elif op[0] == "mut":
+                    specs[op[1]]["x"] = list(specs[op[1]]["x"]) + [op[2]]
             ops = ops[-1:]
-        tasks = [getattr(mod, f"D{t['def']}")(x=t["x"], y=t["y"], n=t["n"], b=t["b"]) for t in specs]
+        # every task instance gets value objects of its own (twins made by the generator share their JSON lists)
+        tasks = [getattr(mod, f"D{t['def']}")(x=copy.deepcopy(t["x"]), y=t["y"], n=t["n"], b=t["b"]) for t in specs]
         roots = {"s": Path(tempfile.mkdtemp(prefix="shared_", dir=scratch))}
         return [do_op(op, tasks, roots, scratch) for op in ops]
     finally:
